@@ -3125,9 +3125,8 @@ impl Block {
         //
         // merkle root
         //
-        if self.merkle_root == [0; 32]
-            && self.merkle_root
-                != self.generate_merkle_root(configs.is_browser(), configs.is_spv_mode())
+        if self.merkle_root
+            != self.generate_merkle_root(configs.is_browser(), configs.is_spv_mode())
         {
             error!("merkle root is unset or is invalid false 1");
             return false;
